@@ -3,6 +3,14 @@
    captured output never reaches the sink, only the top-level chunks do, in order). *)
 From MJ Require Import Common.Base Lang.Syntax Lang.Interp C19.Model C19.Partial.
 
+(* CHUNKING GRANULARITY (assumption, stated once): the interpreter's chunk = what one emit site prints.  The engine may hand
+   one chunk to the sink in SEVERAL write calls - a value's Display / HtmlEscape / JSON writer issues one write per piece
+   (sign, digits, ".0" of a float; the text between metacharacters and each entity; brackets, separators and items of a
+   list or map; the pieces of an Object::render) - and the sink can fail BETWEEN two pieces of one value.  [split] stands
+   for that cutting; the only thing assumed about it is that the pieces, in order, make up the chunk ([split_ok]).
+   Every theorem below holds for every such [split]; which cutting the engine really uses is observed by the check
+   (the free run's call log) and never derived.  What the model does NOT allow is a piece written after an earlier piece
+   of the same value failed, or pieces out of order: exactly what the call-log comparison and the oracle look for. *)
 Definition split_ok (split : list Z -> list (list Z)) : Prop := forall ch, concat (split ch) = ch.
 
 (* the sequence of top-level writes of a finished run *)
